@@ -28,6 +28,8 @@ import (
 
 	"github.com/TarsCloud/TarsGo/tars"
 	"github.com/TarsCloud/TarsGo/tars/selector/consistenthash"
+	"github.com/TarsCloud/TarsGo/tars/util/endpoint"
+	"github.com/TarsCloud/TarsGo/tars/util/rogger"
 
 	"verifharness/common"
 )
@@ -99,7 +101,9 @@ type anyCase struct {
 func main() {
 	o := common.ParseOpts()
 	res := common.NewResult(prop, o)
-	res.Streams = []string{"md5", "ring", "modhash", "ctx"}
+	res.Streams = []string{"md5", "ring", "modhash", "alias", "ctx", "mgr"}
+	os.Args = os.Args[:1] // tars parses os.Args for its own -config flag on first use
+	rogger.SetLevel(rogger.OFF)
 	rng := o.Rand()
 	m, err := common.StartModel(o.Model, "conhash")
 	if err != nil {
@@ -142,6 +146,18 @@ func main() {
 			}
 			h.initCtx()
 			h.runCtx(&c)
+		case "alias":
+			var c acase
+			if err := json.Unmarshal(raw, &c); err != nil {
+				res.Fatal(o.Out, err)
+			}
+			h.runAlias(&c)
+		case "mgr":
+			var c gcase
+			if err := json.Unmarshal(raw, &c); err != nil {
+				res.Fatal(o.Out, err)
+			}
+			h.runMgr(&c)
 		case "md5":
 			var c md5case
 			if err := json.Unmarshal(raw, &c); err != nil {
@@ -155,13 +171,17 @@ func main() {
 		h.streamMD5()
 		h.streamRing()
 		h.streamModhash()
+		h.streamAlias()
 		h.streamCtx()
+		h.streamMgr()
 	}
 	res.Rule = "ring: case = (universe of hosts/weights, enableWeight, hash algorithm, 2-4 Refresh/Add/Remove histories " +
 		"reaching the same set by different routes incl. failing calls and permuted/duplicated Refresh lists); keys = every ring " +
 		"point of the universe, its -1/+1 neighbours, 0, 2^32-1 and random codes; non-trivial = distinct (final set, history) with " +
 		">= 2 hosts in the final set.  modhash: histories x codes, plain and static-weight cycle.  ctx: (context kind, hash type, " +
-		"code) x direct-proxy managers.  md5: random and boundary-length byte strings, virtual-host names, rune strings"
+		"code) x direct-proxy managers.  alias: all four selectors, the caller's Refresh slice is overwritten after every call, " +
+		"selections compared with a twin fed private copies.  mgr: registry-mode managers through install/block/reinstate/refresh " +
+		"histories, hash-routed calls compared with a fresh manager on the same active set and with the slot / ring rule.  md5: random and boundary-length byte strings, virtual-host names, rune strings"
 	if err := res.Write(o.Out); err != nil {
 		panic(err)
 	}
@@ -367,6 +387,40 @@ func randHost(rng *rand.Rand, salt int) string {
 		return fmt.Sprintf("10.%d.%d.%d", 1+rng.Intn(250), rng.Intn(256), rng.Intn(256))
 	}
 }
+
+// ---------------------------------------------------------------------------------------------
+// ownership of the caller's slice: a selector must keep its own copy of what Refresh was given.
+// Every slice handed to a selector is built with spare capacity and scribbled over right after the
+// call (all elements incl. the spare ones overwritten with garbage endpoints, then re-sliced and
+// appended to); whatever the harness gets back from a selector is never modified.  Routing must
+// stay that of the installed set.
+
+const garbagePrefix = "garbage-"
+
+func garbageEp(i int) endpoint.Endpoint {
+	e := endpoint.Endpoint{Host: garbagePrefix + strconv.Itoa(i) + ".invalid", Port: int32(1 + i), Timeout: 1, Istcp: 1, Weight: 77, Proto: "tcp"}
+	e.Key = e.String()
+	return e
+}
+
+// callerSlice returns a slice of length n with spare capacity, as a caller that keeps appending has.
+func callerSlice(n int) []endpoint.Endpoint {
+	return make([]endpoint.Endpoint, n, n+3)
+}
+
+func scribble(eps []endpoint.Endpoint) {
+	full := eps[:cap(eps)]
+	for i := range full {
+		full[i] = garbageEp(i)
+	}
+	eps = append(eps[:0], garbageEp(100))
+	if len(full) > 1 {
+		eps = append(eps[:1], full[1:]...) // the shape of `append(s[:i], s[i+1:]...)` in checkStatus
+	}
+	_ = eps
+}
+
+func isGarbage(host string) bool { return strings.HasPrefix(host, garbagePrefix) }
 
 func trunc(s string) string {
 	if len(s) > 300 {
